@@ -270,4 +270,384 @@ Section MovingEv.
         * apply Forall_forall. intros a Ha. apply in_map_iff in Ha as (a0 & <- & Ha0).
           apply (g_sent_q q a0 Ha0).
   Qed.
+  (* ---------------------------------------------------------------- the triggering step, second half *)
+
+  Definition late_evs (b : block) (L' : ref) (finals stalled : list block) : list event :=
+    irr_events (bref b) (N.of_nat (length finals)) 0 finals ++
+    stalled_events (bref b) L' (N.of_nat (length stalled)) 0 stalled.
+
+  Lemma late_evs_inert b L' finals stalled :
+    Forall (fun e => estep e = SIrr \/ estep e = SStalled) (late_evs b L' finals stalled).
+  Proof.
+    unfold late_evs. apply Forall_app. split.
+    - eapply Forall_impl; [|apply irr_events_step]. cbn beta. auto.
+    - eapply Forall_impl; [|apply stalled_events_step]. cbn beta. auto.
+  Qed.
+
+  (* the LIB half of process_tail, computed: nothing happens when the head declares a LIB at or below the
+     current one; otherwise the LIB moves to the chain entry at the declared height *)
+  Lemma lib_tail_cases s3 Fin S3 b evs :
+    Inv s3 Fin S3 -> last_sent s3 = Some b -> In b U -> bid b <> ri (libref (db s3)) ->
+    (blib b <= rn (libref (db s3)) /\ lib_tail s3 b evs None = (s3, evs, ROk)) \/
+    (rn (libref (db s3)) < blib b /\
+     exists A a B s',
+       chain (store (db s3)) (bid b) (ri (libref (db s3))) (A ++ a :: B) /\ bnum (eb a) = blib b /\
+       lib_tail s3 b evs None =
+         (s', evs ++ late_evs b (mkR (key a) (bnum (eb a)))
+                       (if f_irr (c_filter cfg) then map eb (A ++ [a]) else [])
+                       (if f_stalled (c_filter cfg)
+                        then map (fun sg => eb (sent sg)) (stalled_in_segment (db s3) (map seg_of (A ++ [a]))) else []), ROk) /\
+       db s' = purge_before_lib (move_lib (db s3) (mkR (key a) (bnum (eb a)))) (c_kept cfg) /\
+       last_lib_seen s' = mkR (key a) (bnum (eb a))).
+  Proof.
+    intros HI Hls Hb Hne.
+    pose proof HI as [Hd Hfin Hflast Hh]. rewrite Hls in Hh. destruct Hh as (_ & p & Hc & HS & Hsent).
+    pose proof Hd as [Hnd HU Hcoh Hnum Hextra Hlc].
+    pose proof (di_wf U r0 U_id U_up _ Hd) as Hwf. pose proof (di_lid U r0 _ Hd) as Hlid. pose proof (di_up U r0 _ Hd) as Hup.
+    destruct p as [|et p' _] using rev_ind.
+    { apply chain_nil_inv in Hc. contradiction. }
+    destruct (chain_top _ _ _ _ _ Hc) as [Hf Hk].
+    assert (Eet : eb et = b) by (apply (stored_is_self U U_uniq _ _ _ HU Hb Hf)).
+    unfold lib_tail, MovingLibInv.lib_tail. cbv beta iota zeta. rewrite Hls, (di_has_lib U r0 _ Hd). cbn [negb].
+    destruct (N.le_gt_cases (blib b) (rn (libref (db s3)))) as [Hle|Hgt].
+    - left. split; [exact Hle|].
+      destruct (bic_dead (db s3) Hwf Hlid Hnum Hup Hextra (bid b) (p' ++ [et]) et (blib b) Hc) as (r & Hr & Hdead);
+        [destruct p'; discriminate | exact Hf | exact Hle |].
+      rewrite Eet in Hr. fold (bref b) in Hr.
+      rewrite Hr. destruct (no_new_irr (db s3) first Hwf Hlid Hup r Hdead) as [Hz|Hno].
+      + rewrite Hz, N.eqb_refl. reflexivity.
+      + destruct (ri r =? 0); [reflexivity|]. rewrite Hno. reflexivity.
+    - right. split; [exact Hgt|].
+      assert (Hdec : decl_ok U r0 (eb et)) by (rewrite Eet; apply L_decl; exact Hb).
+      rewrite <- Eet in Hgt.
+      destruct (decl_split U r0 cfg U_id U_uniq U_up L_id L_num L_up L_decl _ _ p' (bid b) et HU Hcoh Hc Hdec Hgt) as (A & a & B & Heq & Hna).
+      rewrite Eet in Hna, Hgt. rewrite Heq in Hc.
+      pose proof (bic_find (db s3) _ _ A a B et Hwf Hc Hf) as Hbic. rewrite Eet in Hbic. fold (bref b) in Hbic.
+      rewrite <- Hna. rewrite Hbic. cbn [ri].
+      assert (Hain : In a (A ++ a :: B)) by (apply in_or_app; right; left; reflexivity).
+      assert (Ha : In a (store (db s3))) by (eapply chain_in; eassumption).
+      destruct (N.eqb_spec (key a) 0) as [E0|_]; [exfalso; apply (proj1 (ws_id _ Hwf a Ha)); exact E0|].
+      rewrite (new_irr_on_chain (db s3) first Hwf Hlid Hnum Hup _ A a B Hc). cbn [negb andb]. cbv zeta.
+      set (d' := purge_before_lib (move_lib (db s3) (mkR (key a) (bnum (eb a)))) (c_kept cfg)).
+      remember (map seg_of (A ++ [a])) as irr eqn:Eirr.
+      assert (Hirr : exists b0 irr', irr = b0 :: irr').
+      { rewrite Eirr, map_app. destruct (map seg_of A); cbn [app map]; eauto. }
+      destruct Hirr as (b0 & irr' & Hirr).
+      set (stalled := stalled_in_segment (db s3) irr).
+      destruct (process_irr_segment_ev cfg Hnofail irr b0 irr' (bref b) (with_db s3 d') Hirr)
+        as (s5 & Hrun5 & Hdb5 & Hls5 & Hlls5).
+      rewrite Hrun5. cbv beta iota. cbn [negb].
+      destruct (process_stalled_segment_ev cfg Hnofail stalled (bref b) s5 (stalled_refs _ _))
+        as (s6 & Hrun6 & (Hdb6 & Hls6 & Hlls6)).
+      rewrite Hrun6. cbv beta iota.
+      assert (Hl5 : last_lib_seen s5 = mkR (key a) (bnum (eb a))).
+      { rewrite Hlls5, Eirr, map_app. cbn [map]. rewrite last_last. reflexivity. }
+      exists A, a, B, s6. split; [exact Hc|]. split; [reflexivity|]. split; [|split].
+      + unfold late_evs. rewrite Hl5. subst stalled. subst irr. rewrite map_sent_seg_of.
+        destruct (f_irr (c_filter cfg)), (f_stalled (c_filter cfg)); rewrite ?map_length; reflexivity.
+      + rewrite Hdb6, Hdb5. reflexivity.
+      + rewrite Hlls6. exact Hl5.
+  Qed.
+
+  (* the second half with everything exposed: MovingLibInv.lib_half for the invariant, lib_tail_cases for
+     the events *)
+  Lemma lib_half_ev s3 Fin S3 b evs :
+    Inv s3 Fin S3 -> last_sent s3 = Some b -> In b U -> bid b <> ri (libref (db s3)) ->
+    exists s' Fnew stalled,
+      lib_tail s3 b evs None =
+        (s', evs ++ late_evs b (libref (db s')) (if f_irr (c_filter cfg) then Fnew else []) stalled, ROk) /\
+      Inv s' (Fin ++ Fnew) S3 /\ last_sent s' = Some b /\
+      ((Fnew = [] /\ s' = s3 /\ stalled = [] /\ blib b <= rn (libref (db s3))) \/
+       (Fnew <> [] /\ rn (libref (db s3)) < blib b /\ rn (libref (db s')) = blib b /\
+        last_lib_seen s' = libref (db s') /\ extra (db s') = None)) /\
+      Forall (fun x => rn (libref (db s3)) < bnum x /\ bnum x <= blib b) Fnew /\
+      linked (ri (libref (db s3))) Fnew /\
+      (forall x, In x U -> In (bid x) (keys (store (db s3))) ->
+                 In (bid x) (keys (store (db s'))) \/ bnum x < rn (libref (db s'))) /\
+      (forall id, In id (keys (store (db s'))) -> In id (keys (store (db s3)))).
+  Proof.
+    intros HI Hls Hb Hne.
+    destruct (lib_half U r0 cfg Hnofail U_id U_uniq U_up L_id L_num L_up L_decl s3 Fin S3 b evs HI Hls Hb Hne)
+      as (s' & evI & evS & Fnew & Hres & HI' & Hls' & HsI & HsS & HmI & Hmono & HFnew & HFlk & Hnil & Hst & Hnd & Hkeys).
+    destruct (lib_tail_cases s3 Fin S3 b evs HI Hls Hb Hne) as [[Hle Hrun]|(Hgt & A & a & B & s6 & Hc & Hna & Hrun & Hdb & Hlls)].
+    - rewrite Hrun in Hres. injection Hres as <- Hev.
+      assert (HF : Fnew = []).
+      { destruct Fnew as [|x F]; [reflexivity|]. pose proof (Forall_inv HFnew) as [H1 H2]. cbn beta in *. lia. }
+      subst Fnew. exists s3, [], []. split.
+      { unfold late_evs. destruct (f_irr (c_filter cfg)); cbn [irr_events stalled_events length app]; rewrite app_nil_r; exact Hrun. }
+      split; [exact HI'|]. split; [exact Hls|]. split; [left; auto|].
+      split; [constructor|]. split; [exact I|]. split; [intros x Hx Hk; left; exact Hk | auto].
+    - rewrite Hrun in Hres. injection Hres as <- Hev.
+      apply app_inv_head in Hev. unfold late_evs in Hev.
+      apply split_irr_stalled in Hev as [HeI HeS];
+        [| apply irr_events_step | exact HsI | apply stalled_events_step | exact HsS].
+      assert (Hlib : libref (db s6) = mkR (key a) (bnum (eb a))) by (rewrite Hdb; reflexivity).
+      assert (Hfin : (if f_irr (c_filter cfg) then map eb (A ++ [a]) else []) = (if f_irr (c_filter cfg) then Fnew else [])).
+      { destruct (f_irr (c_filter cfg)); [|reflexivity]. rewrite <- HmI, <- HeI, irr_events_blocks. reflexivity. }
+      exists s6, Fnew, (if f_stalled (c_filter cfg)
+                        then map (fun sg => eb (sent sg)) (stalled_in_segment (db s3) (map seg_of (A ++ [a]))) else []).
+      split; [rewrite Hrun, Hlib, Hfin; reflexivity|].
+      split; [exact HI'|]. split; [exact Hls'|]. split.
+      { right. assert (HFne : Fnew <> []).
+        { intros HF. destruct (Hnil HF) as [Hs _]. rewrite Hs in Hlib. rewrite Hlib in Hgt. cbn [rn] in Hgt. lia. }
+        split; [exact HFne|]. split; [exact Hgt|]. split; [rewrite Hlib; exact Hna|].
+        split; [rewrite Hlls, Hlib; reflexivity | rewrite Hdb; reflexivity]. }
+      split; [exact HFnew|]. split; [exact HFlk|]. split; [exact Hkeys|].
+      intros id Hid. rewrite Hdb in Hid. cbn [purge_before_lib store] in Hid. eapply in_filter_keys. exact Hid.
+  Qed.
+  (* ---------------------------------------------------------------- one ProcessBlock call, everything exposed *)
+
+  (* the cursor LIB is the LIB of the fork database; once a block is final the LIB block is stored *)
+  Record Ext (s : fstate) (Fin : list block) : Prop := mkExt {
+    x_cur : cursor_lib s = libref (db s);
+    x_lib : Fin <> [] -> In (ri (libref (db s))) (keys (store (db s)))
+  }.
+
+  Lemma ext_init m : rooted r0 m -> Ext (fs_init m) [].
+  Proof.
+    intros [-> | ->]; (constructor; [|intros H; congruence]); unfold cursor_lib; cbn.
+    - unfold is_empty. destruct (N.eqb_spec (ri r0) 0); [contradiction|]. rewrite andb_false_r. reflexivity.
+    - reflexivity.
+  Qed.
+
+  Definition has_chain (l : list entry) (y : N) (b : block) : Prop :=
+    exists pP, chain l (bid b) y (pP ++ [mkEntry b false]).
+
+  (* what kind of step it was (for the comparison with the reference fork choice) *)
+  Inductive StepKind (s s' : fstate) (Fin Fnew : list block) (S S' : cstack) (b : block) : Prop :=
+  | SkSame : dropped s b = true \/ (incl_first s b = false /\ In (bid b) (keys (store (db s)))) ->
+             s' = s -> S' = S -> Fnew = [] -> StepKind s s' Fin Fnew S S' b
+  | SkRoot : dropped s b = false -> incl_first s b = true -> ~ In (bid b) (keys (store (db s))) ->
+             keys (store (db s')) = keys (store (db s)) ++ [bid b] -> libref (db s') = libref (db s) ->
+             last_sent s' = Some b -> S = [] -> S' = [b] -> Fin = [] -> Fnew = [b] ->
+             StepKind s s' Fin Fnew S S' b
+  | SkStored : dropped s b = false -> incl_first s b = false -> ~ In (bid b) (keys (store (db s))) ->
+               keys (store (db s')) = keys (store (db s)) ++ [bid b] -> libref (db s') = libref (db s) ->
+               triggers cfg s b = false \/ ~ has_chain (store (db s) ++ [mkEntry b false]) (ri (libref (db s))) b ->
+               S' = S -> last_sent s' = last_sent s -> Fnew = [] -> StepKind s s' Fin Fnew S S' b
+  | SkTrig : dropped s b = false -> incl_first s b = false -> ~ In (bid b) (keys (store (db s))) ->
+             triggers cfg s b = true -> has_chain (store (db s) ++ [mkEntry b false]) (ri (libref (db s))) b ->
+             (exists T, S' = b :: T) -> last_sent s' = Some b ->
+             (Fnew = [] /\ blib b <= rn (libref (db s)) /\ libref (db s') = libref (db s) /\
+              keys (store (db s')) = keys (store (db s)) ++ [bid b]) \/
+             (Fnew <> [] /\ rn (libref (db s)) < blib b /\ rn (libref (db s')) = blib b /\
+              (forall x, In x U -> In (bid x) (keys (store (db s)) ++ [bid b]) ->
+                         In (bid x) (keys (store (db s'))) \/ bnum x < rn (libref (db s'))) /\
+              (forall id, In id (keys (store (db s'))) -> In id (keys (store (db s)) ++ [bid b]))) ->
+             StepKind s s' Fin Fnew S S' b.
+
+  Definition StepEv (s : fstate) (Fin : list block) (S : cstack) (b : block)
+             (res : fstate * list event * result) : Prop :=
+    exists s' Fnew S' kept undone redone fresh stalled,
+      res = (s', undo_evs (libref (db s)) b (junction_of r0 (lib_stored r0 s) undone kept) undone ++
+                 new_evs (libref (db s)) b redone fresh ++
+                 late_evs b (libref (db s')) (if f_irr (c_filter cfg) then Fnew else []) stalled, ROk) /\
+      S = undone ++ kept /\ S' = rev (redone ++ fresh) ++ kept /\
+      apply_all (ri r0) S (undo_evs (libref (db s)) b (junction_of r0 (lib_stored r0 s) undone kept) undone ++
+                           new_evs (libref (db s)) b redone fresh) = Some S' /\
+      Forall (fun x => In x U /\ rn (libref (db s)) <= bnum x) (redone ++ fresh) /\
+      Inv s' (Fin ++ Fnew) S' /\ Ext s' (Fin ++ Fnew) /\
+      ascending (rn (libref (db s))) Fnew /\ rn (libref (db s)) <= rn (libref (db s')) /\
+      StepKind s s' Fin Fnew S S' b.
+
+  Lemma late_evs_nil b L' : late_evs b L' (if f_irr (c_filter cfg) then [] else []) [] = [].
+  Proof. destruct (f_irr (c_filter cfg)); reflexivity. Qed.
+
+  (* a call that delivers nothing *)
+  Lemma stepev_quiet s s' Fin S b : Inv s' Fin S -> Ext s' Fin -> libref (db s') = libref (db s) ->
+    StepKind s s' Fin [] S S b -> StepEv s Fin S b (s', [], ROk).
+  Proof.
+    intros HI HX Hl Hk. exists s', [], S, S, [], [], [], [].
+    rewrite late_evs_nil, app_nil_r. cbn [undo_evs new_evs batch_events fresh_events length map app rev].
+    split; [reflexivity|]. split; [reflexivity|]. split; [reflexivity|]. split; [reflexivity|].
+    split; [constructor|]. rewrite app_nil_r. split; [exact HI|]. split; [exact HX|]. split; [exact I|]. split; [rewrite Hl; lia | exact Hk].
+  Qed.
+
+  (* heights ascend along a parent-linked run of blocks of the universe *)
+  Lemma linked_ascending : forall l y n, linked y l -> (forall x, In x l -> In x U) ->
+    match l with x :: _ => n <= bnum x | [] => True end -> ascending n l.
+  Proof.
+    induction l as [|x l IH]; intros y n Hl HU H0; cbn [ascending]; [exact I|].
+    split; [exact H0|]. cbn [linked] in Hl. destruct Hl as [_ Hl].
+    apply (IH (bid x)); [exact Hl | intros z Hz; apply HU; right; exact Hz|].
+    destruct l as [|x2 l']; [exact I|]. cbn [linked] in Hl. destruct Hl as [Hp _].
+    pose proof (U_up x2 x (HU x2 (or_intror (or_introl eq_refl))) (HU x (or_introl eq_refl)) Hp). lia.
+  Qed.
+
+  (* the junction the model computes is the block the consumer stack rests on after the undo batch *)
+  Lemma junction_moving s Fin S C Uh : Inv s Fin S -> Ext s Fin ->
+    match Uh with
+    | [] => None
+    | _ :: _ => match rev C with
+                | ej :: _ => Some (bref (eb ej))
+                | [] => match find (ri (libref (db s))) (store (db s)) with
+                        | Some e => Some (mkR (ri (libref (db s))) (bnum (eb e)))
+                        | None => None
+                        end
+                end
+    end = junction_of r0 (lib_stored r0 s) (rev (map eb Uh)) (rev (Fin ++ map eb C)).
+  Proof.
+    intros HI HX. pose proof HI as [Hd Hfin Hflast _]. pose proof Hd as [Hnd HU Hcoh Hnum Hextra Hlc].
+    unfold junction_of. destruct Uh as [|u Uh']; [reflexivity|].
+    assert (Hne : rev (map eb (u :: Uh')) <> []) by (cbn [map rev]; destruct (rev (map eb Uh')); discriminate).
+    destruct (rev (map eb (u :: Uh'))) as [|x xs]; [congruence|].
+    rewrite rev_app_distr, <- map_rev. destruct (rev C) as [|ej rc]; cbn [map app]; [|reflexivity].
+    destruct (rev Fin) as [|t rf] eqn:ER.
+    - (* nothing final yet: the LIB is the starting LIB *)
+      rewrite Hflast. unfold lib_stored. destruct (find (ri r0) (store (db s))) as [e|] eqn:F.
+      + replace (memN (ri r0) (keys (store (db s)))) with true.
+        * pose proof (find_some _ _ _ F) as [Hin Hk]. rewrite (L_num (eb e) (HU e Hin) Hk). destruct r0; reflexivity.
+        * symmetry. apply memN_in. apply find_is_some_in. eauto.
+      + replace (memN (ri r0) (keys (store (db s)))) with false; [reflexivity|].
+        symmetry. apply find_none in F. destruct (memN (ri r0) (keys (store (db s)))) eqn:M; [|reflexivity].
+        apply memN_in in M. contradiction.
+    - (* the stack rests on the last final block, which is the stored LIB block *)
+      assert (HFne : Fin <> []) by (intros E; rewrite E in ER; discriminate).
+      pose proof (x_lib _ _ HX HFne) as Hin. apply find_is_some_in in Hin as [e He]. rewrite He.
+      assert (Ht : In t Fin) by (apply in_rev; rewrite ER; left; reflexivity).
+      rewrite Forall_forall in Hfin. destruct (Hfin t Ht) as [HtU _].
+      pose proof (find_some _ _ _ He) as [Hein Hk]. unfold key in Hk.
+      assert (eb e = t) by (apply U_uniq; [apply HU; exact Hein | exact HtU | congruence]). subst t.
+      unfold bref. rewrite Hk. reflexivity.
+  Qed.
+
+  Lemma cursor_not_empty s' : ri (last_lib_seen s') <> 0 -> cursor_lib s' = last_lib_seen s'.
+  Proof.
+    intros H. unfold cursor_lib, is_empty. destruct (N.eqb_spec (ri (last_lib_seen s')) 0); [contradiction|].
+    rewrite andb_false_r. reflexivity.
+  Qed.
+
+  (* assembling a triggering step from its two halves *)
+  Lemma step_finish_ev s Fin S b s3 pP C Rs Ru Uh :
+    Inv s Fin S -> Ext s Fin -> In b U -> ~ In (bid b) (keys (store (db s))) ->
+    dropped s b = false -> incl_first s b = false -> triggers cfg s b = true ->
+    DbInv (new_db (db s) b) ->
+    chain (store (db s) ++ [mkEntry b false]) (bid b) (ri (libref (db s))) (pP ++ [mkEntry b false]) ->
+    pP = C ++ Rs ++ Ru -> S = rev (Fin ++ map eb (C ++ Uh)) ->
+    apply_all (ri r0) S
+      (undo_evs (libref (db s)) b (junction_of r0 (lib_stored r0 s) (rev (map eb Uh)) (rev (Fin ++ map eb C))) (rev (map eb Uh)) ++
+       new_evs (libref (db s)) b (map eb Rs) (map eb (Ru ++ [mkEntry b false])))
+      = Some (rev (Fin ++ map eb (pP ++ [mkEntry b false]))) ->
+    Inv s3 Fin (rev (Fin ++ map eb (pP ++ [mkEntry b false]))) ->
+    keys (store (db s3)) = keys (store (db s)) ++ [bid b] -> last_sent s3 = Some b ->
+    libref (db s3) = libref (db s) -> last_lib_seen s3 = last_lib_seen s ->
+    StepEv s Fin S b
+      (lib_tail s3 b
+         (undo_evs (libref (db s)) b (junction_of r0 (lib_stored r0 s) (rev (map eb Uh)) (rev (Fin ++ map eb C))) (rev (map eb Uh)) ++
+          new_evs (libref (db s)) b (map eb Rs) (map eb (Ru ++ [mkEntry b false]))) None).
+  Proof.
+    intros HI HX Hb Hk Hdr Hni Htr Hd1 Hc HP HS Happ HI3 Hk3 Hls3 Hl3 Hlls3.
+    set (en := mkEntry b false) in *.
+    destruct (chain_snoc_inv _ _ _ _ _ Hc) as (Hne & _ & _).
+    assert (Hne3 : bid b <> ri (libref (db s3))) by (rewrite Hl3; exact Hne).
+    destruct (lib_half_ev s3 Fin _ b
+                (undo_evs (libref (db s)) b (junction_of r0 (lib_stored r0 s) (rev (map eb Uh)) (rev (Fin ++ map eb C))) (rev (map eb Uh)) ++
+                 new_evs (libref (db s)) b (map eb Rs) (map eb (Ru ++ [en]))) HI3 Hls3 Hb Hne3)
+      as (s' & Fnew & stalled & Hrun & HI' & Hls' & Hcase & HFnew & HFlk & Hkeys & Hsub).
+    rewrite Hl3 in *.
+    pose proof HI' as [Hd' Hfin' _ _].
+    exists s', Fnew, (rev (Fin ++ map eb (pP ++ [en]))), (rev (Fin ++ map eb C)), (rev (map eb Uh)), (map eb Rs),
+           (map eb (Ru ++ [en])), stalled.
+    split; [rewrite Hrun, <- app_assoc; reflexivity|].
+    split; [rewrite HS, map_app, app_assoc, rev_app_distr; reflexivity|].
+    split.
+    { rewrite HP, <- map_app, <- rev_app_distr. f_equal.
+      rewrite <- !app_assoc, !map_app, <- ?app_assoc. reflexivity. }
+    split; [exact Happ|].
+    split.
+    { rewrite <- map_app. apply Forall_forall. intros x Hx. apply in_map_iff in Hx as (e & <- & He).
+      assert (Hin : In e (pP ++ [en])).
+      { rewrite HP, <- !app_assoc. apply in_or_app. right. exact He. }
+      split.
+      - apply (di_inU U r0 _ Hd1). cbn [new_db store]. eapply chain_in; [exact Hc | exact Hin].
+      - pose proof (di_above U r0 U_id U_up _ Hd1 (bid b) (pP ++ [en])) as Hab. cbn [new_db store libref] in Hab.
+        specialize (Hab Hc e Hin). lia. }
+    split; [exact HI'|].
+    assert (HFU : forall x, In x Fnew -> In x U).
+    { intros x Hx. rewrite Forall_forall in Hfin'. apply Hfin'. apply in_or_app. right. exact Hx. }
+    split.
+    { destruct Hcase as [(-> & -> & _ & _)|(HFne & Hgt & Hrn & Hlls' & Hex')].
+      - rewrite app_nil_r. constructor.
+        + unfold cursor_lib. rewrite Hlls3, Hl3. exact (x_cur _ _ HX).
+        + intros HF. rewrite Hl3, Hk3. apply in_or_app. left. exact (x_lib _ _ HX HF).
+      - constructor.
+        + rewrite <- Hlls'. apply cursor_not_empty. rewrite Hlls'. exact (di_lid U r0 _ Hd').
+        + intros _. pose proof (di_num U r0 _ Hd') as Hn. unfold num_of in Hn. rewrite Hex' in Hn.
+          destruct (find (ri (libref (db s'))) (store (db s'))) as [e|] eqn:F; [|discriminate].
+          apply find_is_some_in. eauto. }
+    split.
+    { apply (linked_ascending Fnew (ri (libref (db s)))); [exact HFlk | exact HFU|].
+      destruct Fnew as [|x F]; [exact I|]. pose proof (Forall_inv HFnew) as [H1 _]. cbn beta in H1. lia. }
+    split.
+    { destruct Hcase as [(_ & -> & _ & _)|(_ & Hgt & Hrn & _)]; [rewrite Hl3; lia | lia]. }
+    apply SkTrig; try assumption.
+    - exists pP. exact Hc.
+    - rewrite map_app, app_assoc, rev_app_distr. cbn [map rev app eb en]. eauto.
+    - destruct Hcase as [(HF & -> & _ & Hle)|(HFne & Hgt & Hrn & _ & _)].
+      + left. auto.
+      + right. split; [exact HFne|]. split; [exact Hgt|]. split; [exact Hrn|]. split.
+        * intros x Hx Hin. apply Hkeys; [exact Hx | rewrite Hk3; exact Hin].
+        * intros id Hid. rewrite <- Hk3. apply Hsub. exact Hid.
+  Qed.
+  (* the inclusive first delivery: New + Irreversible for the starting LIB block itself *)
+  Lemma step_root_ev s Fin S b : Inv s Fin S -> Ext s Fin -> In b U -> dropped s b = false ->
+    incl_first s b = true -> StepEv s Fin S b (fk_step cfg s b).
+  Proof.
+    intros HI HX Hb Hd Hinc0. pose proof HI as [Hdb Hfin Hflast Hh]. pose proof Hinc0 as Hinc.
+    unfold MovingLibInv.incl_first in Hinc. apply andb_true_iff in Hinc as [Hinc Hid]. apply andb_true_iff in Hinc as [Hci Hls].
+    destruct (last_sent s) as [hd|] eqn:Els; [discriminate|]. destruct Hh as (-> & -> & Hall & Hroot).
+    cbn [rev] in Hflast. apply N.eqb_eq in Hid. rewrite Hflast in Hid.
+    specialize (Hroot Hci).
+    assert (Hf : find (bid b) (store (db s)) = None) by (rewrite Hid; exact Hroot).
+    assert (Hk : ~ In (bid b) (keys (store (db s)))) by (apply find_none; exact Hf).
+    destruct (U_id b Hb) as (H1 & H2 & H3).
+    pose proof (x_cur _ _ HX) as Hcur.
+    unfold fk_step. destruct (N.eqb_spec (bid b) (bparent b)); [contradiction|].
+    pose proof Hd as Hd0. unfold dropped in Hd. rewrite Els in *. rewrite Hd, Hci, Hflast.
+    replace (bid b =? ri r0) with true by (symmetry; apply N.eqb_eq; exact Hid). cbn [andb].
+    rewrite (add_link_new U U_id _ _ Hb Hf). cbn [fst].
+    pose proof (dbinv_add U r0 _ _ Hdb Hb Hf) as Hdb1.
+    set (s1 := with_db s (new_db (db s) b)).
+    assert (Hcur1 : cursor_lib s1 = r0) by (rewrite <- Hflast, <- Hcur; reflexivity).
+    unfold process_initial_inclusive. rewrite Hnew, (call_ok cfg Hnofail). cbv beta iota zeta.
+    set (tiny := mkSeg (bid b) (bnum b) (mkEntry b false)).
+    set (ev := mkEv SNew b (seg_ref tiny) (seg_ref tiny) (cursor_lib s1) None 0 0).
+    set (s1' := mkFS (db (mkFS (db s1) (last_sent s1) (last_lib_seen s1) (ncalls s1 + 1))) (Some b)
+                     (last_lib_seen (mkFS (db s1) (last_sent s1) (last_lib_seen s1) (ncalls s1 + 1)))
+                     (ncalls (mkFS (db s1) (last_sent s1) (last_lib_seen s1) (ncalls s1 + 1)))).
+    destruct (process_irr_segment_ev cfg Hnofail [tiny] tiny [] (bref b) s1' eq_refl)
+      as (s2 & Hrun & Hdb2 & Hls2 & Hlls2).
+    rewrite Hrun. cbv beta iota.
+    assert (Hdbs2 : db s2 = new_db (db s) b) by (rewrite Hdb2; reflexivity).
+    assert (Hlast2 : last_sent s2 = Some b) by (rewrite Hls2; reflexivity).
+    assert (Hbr : bref b = r0).
+    { unfold bref. rewrite Hid, (L_num b Hb Hid). destruct r0; reflexivity. }
+    exists s2, [b], [b], [], [], [], [b], [].
+    split.
+    { rewrite Hdbs2. cbn [new_db libref]. rewrite Hflast.
+      unfold undo_evs, new_evs, late_evs, ev. rewrite Hcur1. cbn [seg_ref tiny sid snum].
+      fold (bref b). destruct (f_irr (c_filter cfg)); reflexivity. }
+    split; [reflexivity|]. split; [reflexivity|].
+    split.
+    { rewrite Hflast. cbn. unfold root_ok. rewrite Hid, N.eqb_refl. reflexivity. }
+    split.
+    { constructor; [|constructor]. split; [exact Hb|]. rewrite Hflast, (L_num b Hb Hid). lia. }
+    split.
+    { constructor; rewrite ?Hdbs2; cbn [new_db libref store app].
+      - exact Hdb1.
+      - constructor; [|constructor]. split; [exact Hb|]. rewrite Hflast, (L_num b Hb Hid). lia.
+      - cbn [rev app]. rewrite Hflast. exact Hid.
+      - rewrite Hlast2. split; [exact Hb|]. exists []. rewrite Hflast, Hid. split; [constructor|].
+        split; [reflexivity | constructor]. }
+    split.
+    { constructor; rewrite ?Hdbs2; cbn [new_db libref store app].
+      - rewrite Hflast, <- Hbr. rewrite (cursor_not_empty s2); [rewrite Hlls2; reflexivity|].
+        rewrite Hlls2. cbn [last tiny seg_ref sid ri]. rewrite Hid. exact L_id.
+      - intros _. rewrite keys_snoc, Hflast. apply in_or_app. right. left. exact Hid. }
+    split; [cbn [ascending]; rewrite Hflast, (L_num b Hb Hid); split; [lia | exact I]|].
+    split; [rewrite Hdbs2; cbn [new_db libref]; lia|].
+    apply SkRoot; try assumption; try reflexivity.
+    - rewrite Hdbs2. cbn [new_db store]. apply keys_snoc.
+    - rewrite Hdbs2. reflexivity.
+  Qed.
 End MovingEv.
